@@ -158,6 +158,7 @@ def cases_transform(tier):
 
 
 def scn_transform(T, case):
+    PFX = case.get("prefix", "C13")
     sh = T.shadow([M_INFO, M_UTIL])
     CI = T.under_contract(sh, M_INFO, "ConstraintInfo") if T.symbolic else T.func(M_INFO, "ConstraintInfo")
     if T.symbolic:
@@ -181,26 +182,26 @@ def scn_transform(T, case):
     try:
         out = info.transform_from_optimizer(tr)
     except AssertionError:
-        T.fail("C13.transform.no_internal_assertion", "AssertionError in transform_from_optimizer")
+        T.fail(PFX + ".transform.no_internal_assertion", "AssertionError in transform_from_optimizer")
         return
     fs = s if case["var_tr"] else 1.0
     fe = e if case["var_tr"] else 1.0
     if case["has_b"]:
-        T.prove("C13.transform.bound_diffs_scaled_back", T.same(out.bound_lower, bl * fs) & T.same(out.bound_upper, bu * fs))
-        T.prove("C13.transform.bound_violation_recomputed", T.same(out.bound_violation, T.np.maximum(T.np.maximum(-(bl * fs), bu * fs), 0.0 * bl)))
+        T.prove(PFX + ".transform.bound_diffs_scaled_back", T.same(out.bound_lower, bl * fs) & T.same(out.bound_upper, bu * fs))
+        T.prove(PFX + ".transform.bound_violation_recomputed", T.same(out.bound_violation, T.np.maximum(T.np.maximum(-(bl * fs), bu * fs), 0.0 * bl)))
     else:
-        T.prove("C13.transform.no_bound_info_invented", out.bound_lower is None and out.bound_violation is None)
+        T.prove(PFX + ".transform.no_bound_info_invented", out.bound_lower is None and out.bound_violation is None)
     if case["has_l"]:
-        T.prove("C13.transform.linear_diffs_scaled_back", T.same(out.linear_lower, ll * fe) & T.same(out.linear_upper, lu * fe))
-        T.prove("C13.transform.linear_violation_recomputed", T.same(out.linear_violation, T.np.maximum(T.np.maximum(-(ll * fe), lu * fe), 0.0 * ll)))
+        T.prove(PFX + ".transform.linear_diffs_scaled_back", T.same(out.linear_lower, ll * fe) & T.same(out.linear_upper, lu * fe))
+        T.prove(PFX + ".transform.linear_violation_recomputed", T.same(out.linear_violation, T.np.maximum(T.np.maximum(-(ll * fe), lu * fe), 0.0 * ll)))
     else:
-        T.prove("C13.transform.no_linear_info_invented", out.linear_lower is None and out.linear_violation is None)
+        T.prove(PFX + ".transform.no_linear_info_invented", out.linear_lower is None and out.linear_violation is None)
     if case["has_nl"]:
         fk = k if case["nl_tr"] else 1.0
-        T.prove("C13.transform.nonlinear_diffs_scaled_back", T.same(out.nonlinear_lower, nl_l * fk) & T.same(out.nonlinear_upper, nl_u * fk))
-        T.prove("C13.transform.nonlinear_violation_recomputed", T.same(out.nonlinear_violation, T.np.maximum(T.np.maximum(-(nl_l * fk), nl_u * fk), 0.0 * nl_l)))
+        T.prove(PFX + ".transform.nonlinear_diffs_scaled_back", T.same(out.nonlinear_lower, nl_l * fk) & T.same(out.nonlinear_upper, nl_u * fk))
+        T.prove(PFX + ".transform.nonlinear_violation_recomputed", T.same(out.nonlinear_violation, T.np.maximum(T.np.maximum(-(nl_l * fk), nl_u * fk), 0.0 * nl_l)))
     else:
-        T.prove("C13.transform.no_nonlinear_info_invented", out.nonlinear_lower is None and out.nonlinear_violation is None)
+        T.prove(PFX + ".transform.no_nonlinear_info_invented", out.nonlinear_lower is None and out.nonlinear_violation is None)
 
 
 # ------------------------------------------------------------------------------- scenario: _violates_constraint
